@@ -132,6 +132,8 @@ def culprit(I, mr, prog, x, wm):
             ok2, _ = mr.norm_close(p.J, o.J[:, cols], RTOL, o.sjac)
             if not (ok1 and ok2):
                 return node_name(nd)
+        except mr.ProbeDomainError:
+            return node_name(nd)
         except Exception:
             return node_name(nd) + "(raises)"
     return None
@@ -198,8 +200,11 @@ def case(ck, i):
     try:
         p = mr.probe_operator(I, F, xf, wm, lay)
     except mr.NiftyRaised as e:
-        ck.violation(f"raises:{e.phase}:{e.key}", f"{e.phase} raised inside NIFTy: {e}",
+        ck.violation(f"raises:{e.key}", f"{e.phase} raised inside NIFTy: {e}",
                      nodes=[node_name(nd) for nd in prog["nodes"]])
+        return
+    except mr.ProbeDomainError as e:
+        bad("domain-of-" + e.what.split()[0], f"{e.what}: field/operator on an unexpected domain")
         return
     if p.tlay.multi != o.olay.multi or [(k, s) for k, s, _ in p.tlay.items] != \
             [(k, s) for k, s, _ in o.olay.items]:
